@@ -114,7 +114,7 @@ func drawC04(t *rapid.T) C04Case {
 		Unicode:   rapid.IntRange(0, 4).Draw(t, "unicode") == 0,
 		WideDates: true,
 	}
-	gen.MaybeLarge(t, &cfg, 40)
+	gen.MaybeLarge(t, &cfg, 4)
 	j := gen.GenJournal(t, cfg)
 	var c C04Case
 	nd := rapid.SampledFrom([]int{0, 0, 1, 1, 1, 2}).Draw(t, "nDamage")
